@@ -105,6 +105,14 @@ def primary_forms(tier='quick'):
         if v < 16:
             out.append('\\x%x' % v)
             out.append('\\x%xg' % v)
+            # one-digit escapes INSIDE a set, followed by a non-hex character, by ']' , by a range dash, by another escape
+            out.append('[\\x%xz]' % v)
+            out.append('[q\\x%x]' % v)
+            if v % 3 == 0:
+                out.append('[^\\x%xz]' % v)
+                out.append('[\\x%x-z]' % v)
+                out.append('[\\x%x\\x%x]' % (v, 15 - v))
+                out.append('x[\\x%x ]y' % v)
     edge = [0x00, 0x01, 0x1f, 0x20, 0x2d, 0x2f, 0x30, 0x39, 0x41, 0x5a, 0x5b, 0x5d, 0x61, 0x7a, 0x7e, 0x7f, 0x80, 0x81, 0xc3, 0xfe, 0xff]
     for a in edge:
         for b in edge:
